@@ -64,3 +64,21 @@ let () =
   register "c17_addr_rt" (function [c; addrs] ->
       of_result (fun (p, r) -> VT [VB p; addr_v r])
         (Model.c17_addr_rt (vi c) (List.map (fun a -> match vl a with [t; sv; ip; port] -> (((vi t, vb sv), vb ip), vi port) | _ -> raise (Bad "addr")) (vl addrs))) | _ -> bad ())
+let step_of (v : value) : Model.step = match vl v with
+  | [VI t; n] when Z.to_int t = 0 -> Model.c17_step_select (vb n)
+  | VI t :: _ when Z.to_int t = 1 -> Model.c17_step_select_bad
+  | [VI t; fuel; stream; sched] when Z.to_int t = 2 -> Model.c17_step_recv (vi fuel) (vb stream) (List.map vi (vl sched))
+  | [VI t; c; p] when Z.to_int t = 3 -> Model.c17_step_ser (vb c) (vb p)
+  | _ -> raise (Bad "step")
+let refused = str "refused"
+let outcome_v (o : Model.outcome) : value = match o with
+  | Model.OSelect (Model.Ok b) -> VBool b
+  | Model.ORecv (Model.Ok (((m, c), p), rest)) -> VT [VB m; VB c; VB p; VB rest]
+  | Model.OSer (Model.Ok b) -> VB b
+  | Model.OSelect (Model.Err _) | Model.ORecv (Model.Err _) | Model.OSer (Model.Err _) -> refused
+let () =
+  register "c17_magic_session" (function [cur; steps] ->
+      let (os, fin) = Model.c17_magic_session sha256 (vb cur) (List.map step_of (vl steps)) in
+      ROk (VT [VL (List.map outcome_v os); VB fin]) | _ -> bad ());
+  register "c17_network_magic" (function [n] -> ROk (opt (fun b -> VB b) (Model.c17_network_magic (vb n))) | _ -> bad ())
+
